@@ -236,6 +236,8 @@ func evalOrderGuard(p *N) string {
 			g = "C01-slice-evaluates-stop-first"
 		case x.K == "setitem" && x.S != "=" && hasCall(x.C[1]):
 			g = "C01-compound-index-evaluated-twice"
+		case x.K == "param" && len(x.C) == 1 && x.C[0].K == "nil":
+			g = "C01-nil-default-ignored"
 		case x.K == "set":
 			for _, it := range x.C {
 				if it.K == "list" || it.K == "set" || it.K == "map" || it.K == "func" {
@@ -599,6 +601,9 @@ func c01DirectedErrors() []*N {
 		mk(nVar("r", nTry(nThunk(nExpr(nTry(nThunk(nExpr(nInfix("+", nInt(1), nStr("a")))), nFunc("", []string{"e"}, nExpr(nCall(nId("error"), nId("e"))))))), nFunc("", []string{"e"}, nRet(nId("e"))))),
 			nExpr(n("list", nId("r")))),
 		mk(nVar("r", nTry(nThunk(nRaise("a")), nFunc("", []string{"e"}, nRet(nId("e"))))), nExpr(nCall(nId("error"), nId("r"))), nPrint(nStr("unreachable"))),
+		// a nil default is a default (the compiler accepts it)
+		mk(nExpr(ns("func", "h", n("params", ns("param", "a"), ns("param", "b", n("nil"))), nBlock(nRet(n("list", nId("a"), nId("b")))))),
+			nExpr(n("list", nCall(nId("h"), nInt(1), nInt(2)), nTry(nThunk(nRet(nCall(nId("h"), nInt(1)))), nStr("ERR"))))),
 		// runaway recursion: with an operand kept per level the 1024-slot operand stack overflows before the
 		// 1024-frame array does; without one the frame array overflows.  Both are Go panics recovered by
 		// vm.Run: try does not catch them, deferred calls on the way out run (the dispatch traces must agree
